@@ -1163,3 +1163,46 @@ Proof.
   - intros Harc. assert (Hin : In (u, v) (arcs_of g)) by (apply in_arcs_of; tauto).
     specialize (H2 _ Hin). cbn [fst snd] in H2. apply has_arcb_spec in H2. exact H2.
 Qed.
+
+(** * Uniqueness of the sorted sequence *)
+Lemma sorted_perm_unique {A} (R : A -> A -> Prop) :
+  (forall x y, R x y -> R y x -> x = y) ->
+  forall l1 l2, StronglySorted R l1 -> StronglySorted R l2 -> Permutation l1 l2 -> l1 = l2.
+Proof.
+  intros Hanti. induction l1 as [|x l1 IH]; intros l2 H1 H2 Hp.
+  - apply Permutation_nil in Hp. now subst.
+  - destruct l2 as [|y l2]; [symmetry in Hp; apply Permutation_nil in Hp; discriminate|].
+    inversion H1 as [|? ? H1' Hall1]; subst. inversion H2 as [|? ? H2' Hall2]; subst.
+    rewrite Forall_forall in Hall1, Hall2.
+    assert (x = y) as ->.
+    { assert (In x (y :: l2)) as Hx by (eapply Permutation_in; [exact Hp|now left]).
+      assert (In y (x :: l1)) as Hy by (eapply Permutation_in; [symmetry; exact Hp|now left]).
+      destruct Hx as [->|Hx]; [reflexivity|]. destruct Hy as [->|Hy]; [reflexivity|].
+      apply Hanti; [apply Hall1; exact Hy|apply Hall2; exact Hx]. }
+    f_equal. apply IH; [exact H1'|exact H2'|]. eapply Permutation_cons_inv. exact Hp.
+Qed.
+
+Lemma strongly_sorted_of_nth {A} (R : A -> A -> Prop) d l :
+  (forall i j, (i < j < length l)%nat -> R (nth i l d) (nth j l d)) -> StronglySorted R l.
+Proof.
+  induction l as [|x l IH]; intros H; constructor.
+  - apply IH. intros i j Hij. apply (H (S i) (S j)). cbn [length]. lia.
+  - apply Forall_forall. intros y Hy. destruct (In_nth l y d Hy) as [j [Hj <-]].
+    apply (H O (S j)). cbn [length]. lia.
+Qed.
+
+Theorem sort_unique : S_sort_unique.
+Proof.
+  intros kf l p Hid Hperm Hsorted.
+  assert (Hinj : forall a b, kf a = kf b -> a = b).
+  { intros a b E. rewrite <- (Hid a), <- (Hid b), E. reflexivity. }
+  assert (Hkeys : map kf p = map kf (sort_ids kf l)).
+  { apply (sorted_perm_unique key_le key_le_antisym).
+    - apply (strongly_sorted_of_nth key_le (kf 0)). rewrite map_length. intros i j Hij.
+      rewrite !map_nth. apply key_leb_spec. apply Hsorted. exact Hij.
+    - apply sort_ids_sorted. exact Hid.
+    - apply Permutation_map. rewrite Hperm. symmetry. apply sort_ids_perm. exact Hid. }
+  revert Hkeys. generalize (sort_ids kf l) as q. clear - Hinj.
+  induction p as [|a p IH]; intros [|b q] E; cbn in E; try discriminate; [reflexivity|].
+  inversion E as [[E1 E2]]. f_equal; [apply Hinj; exact E1|apply IH; exact E2].
+Qed.
